@@ -3,7 +3,7 @@
 def grid_prop(cases_q, cases_t, size=200, **kw):
     d = dict(flavour="asan", binary="vdrive", level="exploration",
              quick=dict(cases=cases_q, size=size, wall=900),
-             thorough=dict(cases=cases_t, size=size + 100, wall=3000),
+             thorough=dict(cases=cases_t, size=size + 100, wall=3000, case_budget=60),
              assumptions=["sanitizers (ASan+UBSan) see every memory error on the executed paths",
                           "harness reference models (value dictionary, moments, maps, 1-D hierarchy) are correct; cross-checked at start-up where stated in DESIGN.md"])
     d.update(kw); return d
